@@ -17,6 +17,9 @@ pub struct PendingPacket {
     last_fragment_id: u16,
 
     ack_flags: Box<[u64]>,
+
+    // Flush ID a TimeSensitive packet was queued for, beyond which it is not to begin transmission
+    expiry_flush_id: Option<u32>,
 }
 
 impl PendingPacket {
@@ -38,7 +41,17 @@ impl PendingPacket {
             last_fragment_id,
 
             ack_flags: vec![0u64; (num_fragments + 63)/64].into_boxed_slice(),
+
+            expiry_flush_id: None,
         }
+    }
+
+    pub fn set_expiry_flush_id(&mut self, flush_id: u32) {
+        self.expiry_flush_id = Some(flush_id);
+    }
+
+    pub fn expired(&self, flush_id: u32) -> bool {
+        self.expiry_flush_id.map_or(false, |expiry_flush_id| expiry_flush_id != flush_id)
     }
 
     #[cfg(test)]
